@@ -63,8 +63,31 @@ Definition disc_of (f : fmt) : disc :=
 Definition wipes (f : fmt) : bool :=
   match f with NQ | HEXT => true | _ => false end.
 
-Record doc := { d_fmt : fmt; d_target : cid; d_stmts : list stmt }.
+(* One parse call.
+   [d_obj = Some k]: the call is made on the long-lived parser object number k (direct use of
+     W3CNTriplesParser / NQuadsParser: its [_bnode_ids] dict lives as long as the object);
+     [None]: Graph.parse / Dataset.parse, which build a new parser object for the call.
+   [d_ctx = Some k]: the caller passes its dict number k as [bnode_context=] (N-Triples and
+     N-Quads offer this; the dict then replaces the parser's own for the call).
+   [d_keep]: the caller passes [preserve_bnode_ids=True] (RDF/XML and TriX offer this).
+   [d_raised]: the document is malformed after the statements listed in [d_stmts]: the call
+     raises; the parsers stream into the graph, so those statements have been added. *)
+Record doc := { d_fmt : fmt; d_target : cid; d_stmts : list stmt;
+                d_obj : option N; d_ctx : option N; d_keep : bool; d_raised : bool }.
+Definition mkdoc (f : fmt) (t : cid) (s : list stmt) : doc :=
+  {| d_fmt := f; d_target := t; d_stmts := s; d_obj := None; d_ctx := None; d_keep := false; d_raised := false |}.
 Record case := { c_init : qset; c_docs : list doc }.
+
+(* which long-lived label dict the call works on (ntriples.py nodeid: "if bnode_context is None:
+   bnode_context = self._bnode_ids"); None = a dict that dies with the call *)
+Definition env_key (d : doc) : option N :=
+  match d_ctx d with
+  | Some c => Some (2 * c)
+  | None => match d_obj d with Some o => Some (2 * o + 1) | None => None end
+  end.
+
+(* the discipline of the call: preserve_bnode_ids=True asks for BNode(label) *)
+Definition call_disc (d : doc) : disc := if d_keep d then Identity else disc_of (d_fmt d).
 
 (* ---- the label environment: a Python dict label -> node, insertion ordered *)
 Definition env := list (N * N).
@@ -96,29 +119,49 @@ Definition res_stmt (fresh : N -> N) (d : disc) (tgt : cid) (e : env) (s : stmt)
   let '(e3, g') := res_graph fresh d tgt e2 g in
   (e3, ((s', p, o'), g')).
 
-Fixpoint add_stmts (fresh : N -> N) (d : disc) (tgt : cid) (e : env) (st : qset) (l : list stmt) : qset :=
+Fixpoint add_stmts (fresh : N -> N) (d : disc) (tgt : cid) (e : env) (st : qset) (l : list stmt) : env * qset :=
   match l with
-  | [] => st
+  | [] => (e, st)
   | s :: r => let '(e', q) := res_stmt fresh d tgt e s in
               add_stmts fresh d tgt e' (q_add q st) r
   end.
 
 Definition wipe_default (st : qset) : qset := q_remove (None, None, None) (Some DS_DEFAULT) st.
 
-Definition parse_call (fresh : N -> N) (st : qset) (dc : doc) : qset :=
-  add_stmts fresh (disc_of (d_fmt dc)) (d_target dc) [] st (d_stmts dc).
+(* one call, started with the label dict [e0]; returns the dict as the call leaves it *)
+Definition parse_call (fresh : N -> N) (e0 : env) (st : qset) (dc : doc) : env * qset :=
+  add_stmts fresh (call_disc dc) (d_target dc) e0 st (d_stmts dc).
 
 (* the code as it was before the "fix:" commit for finding F12, kept so that the refutation
    of "parsing only adds" on the historical code stays checkable *)
-Definition parse_call_prefix (fresh : N -> N) (st : qset) (dc : doc) : qset :=
+Definition parse_call_prefix (fresh : N -> N) (e0 : env) (st : qset) (dc : doc) : env * qset :=
   let st0 := if wipes (d_fmt dc) then wipe_default st else st in
-  add_stmts fresh (disc_of (d_fmt dc)) (d_target dc) [] st0 (d_stmts dc).
+  add_stmts fresh (call_disc dc) (d_target dc) e0 st0 (d_stmts dc).
 
-(* the store content after every parse call; [j] = index of the call *)
-Fixpoint run (fresh : N -> N -> N) (j : N) (st : qset) (ds : list doc) : list qset :=
+(* the long-lived dicts (parser objects' _bnode_ids, callers' bnode_context dicts) *)
+Definition envs := list (N * env).
+Fixpoint envs_get (es : envs) (k : N) : env :=
+  match es with
+  | [] => []
+  | (k', e) :: r => if N.eqb k' k then e else envs_get r k
+  end.
+Definition envs_set (es : envs) (k : N) (e : env) : envs := (k, e) :: es.
+
+Definition start_env (es : envs) (d : doc) : env :=
+  match env_key d with Some k => envs_get es k | None => [] end.
+Definition keep_env (es : envs) (d : doc) (e : env) : envs :=
+  match env_key d with Some k => envs_set es k e | None => es end.
+
+Definition call_step (fresh : N -> N) (es : envs) (st : qset) (d : doc) : envs * qset :=
+  let '(e1, st1) := parse_call fresh (start_env es d) st d in (keep_env es d e1, st1).
+
+(* after every parse call: did it raise, and the store content; [j] = index of the call *)
+Definition obs_t := list (bool * qset).
+Fixpoint run (fresh : N -> N -> N) (j : N) (es : envs) (st : qset) (ds : list doc) : obs_t :=
   match ds with
   | [] => []
-  | d :: r => let st' := parse_call (fresh j) st d in st' :: run fresh (N.succ j) st' r
+  | d :: r => let '(es', st') := call_step (fresh j) es st d in
+              (d_raised d, st') :: run fresh (N.succ j) es' st' r
   end.
 
 (* ------------------------------------------------------------------ *)
@@ -167,20 +210,46 @@ Fixpoint recover (now : qset) (j : N) (ls : list N) : option env :=
 
 Definition apply_map (m : env) (l : N) : N := match env_get m l with Some n => n | None => 0 end.
 
-Definition merge_ok (prev now : qset) (j : N) (d : doc) : bool :=
+(* [known]: the labels whose node is already fixed when the call starts - the entries of a
+   long-lived dict the caller shares between calls (documented: "to define a context in which
+   blank node identifiers refer to the same blank node across instances ... pass the same dict"),
+   or label |-> BNode(label) for every label when the caller asked for preserve_bnode_ids.
+   A known label must denote the known node; every other label a blank node that occurs
+   nowhere in the previous content. *)
+Definition label_ok (known : env) (prev : qset) (ln : N * N) : bool :=
+  match env_get known (fst ln) with
+  | Some n' => N.eqb (snd ln) n'
+  | None => is_bnode (snd ln) && negb (occurs_in (snd ln) prev)
+  end.
+
+Definition merge_ok (known : env) (prev now : qset) (j : N) (d : doc) : bool :=
   subsetb quad_eqb prev now &&
   match recover now j (labels_of (d_stmts d)) with
   | None => false
   | Some m =>
       nodupb N.eqb (map snd m)
-      && forallb (fun n => is_bnode n && negb (occurs_in n prev)) (map snd m)
+      && forallb (label_ok known prev) m
       && qseteqb now (prev ++ map (sub_stmt (apply_map m) (d_target d)) (d_stmts d))
   end.
 
-Fixpoint spec_run (prev : qset) (j : N) (ds : list doc) (obs : list qset) : bool :=
+Definition keep_map (stmts : list stmt) : env := map (fun l => (l, lab_node l)) (labels_of stmts).
+
+Definition known_of (es : envs) (d : doc) : env :=
+  if d_keep d then keep_map (d_stmts d) else start_env es d.
+
+(* what the checker remembers of a shared dict: what it knew plus what it saw the call decide *)
+Definition learn (es : envs) (d : doc) (now : qset) (j : N) : envs :=
+  match env_key d, recover now j (labels_of (d_stmts d)) with
+  | Some k, Some m => envs_set es k (envs_get es k ++ m)
+  | _, _ => es
+  end.
+
+Fixpoint spec_run (es : envs) (prev : qset) (j : N) (ds : list doc) (obs : obs_t) : bool :=
   match ds, obs with
   | [], [] => true
-  | d :: r, now :: obs' => merge_ok prev now j d && spec_run now (N.succ j) r obs'
+  | d :: r, (raised, now) :: obs' =>
+      Bool.eqb raised (d_raised d) && merge_ok (known_of es d) prev now j d
+      && spec_run (learn es d now j) now (N.succ j) r obs'
   | _, _ => false
   end.
 
@@ -206,10 +275,19 @@ Definition is_tag_stmt (j l : N) (s : stmt) : bool :=
   | _, _ => false
   end.
 
+(* the options exist where the API offers them: bnode_context / long-lived parser objects for
+   N-Triples and N-Quads, preserve_bnode_ids for RDF/XML and TriX *)
+Definition opts_ok (d : doc) : bool :=
+  match env_key d with
+  | Some _ => match d_fmt d with NT | NQ => negb (d_keep d) | _ => false end
+  | None => if d_keep d then match d_fmt d with XML | TRIX => true | _ => false end else true
+  end.
+
 Definition doc_ok (j : N) (d : doc) : bool :=
   (d_target d <? 1000) &&
   forallb (stmt_ok j) (d_stmts d) &&
-  forallb (fun l => existsb (is_tag_stmt j l) (d_stmts d)) (labels_of (d_stmts d)).
+  forallb (fun l => existsb (is_tag_stmt j l) (d_stmts d)) (labels_of (d_stmts d)) &&
+  opts_ok d.
 
 Fixpoint docs_ok (j : N) (ds : list doc) : bool :=
   match ds with [] => true | d :: r => doc_ok j d && docs_ok (N.succ j) r end.
@@ -232,21 +310,32 @@ Definition kf_step (st : qset) (d : doc) : N :=
   | Fresh => 0
   end.
 
-Fixpoint kf_run (fresh : N -> N -> N) (j : N) (st : qset) (ds : list doc) : N :=
+Fixpoint kf_run (fresh : N -> N -> N) (j : N) (es : envs) (st : qset) (ds : list doc) : N :=
   match ds with
   | [] => 0
   | d :: r => match kf_step st d with
-              | 0%N => kf_run fresh (N.succ j) (parse_call (fresh j) st d) r
+              | 0%N => let '(es', st') := call_step (fresh j) es st d in kf_run fresh (N.succ j) es' st' r
               | n => n
               end
   end.
 
 (* ------------------------------------------------------------------ *)
 (* Entry points used by the correspondence check *)
-Definition obs_eqb (a b : list qset) : bool := list_eqb qseteqb a b.
-Definition model_obs (c : case) : list qset := run std_fresh 0 (c_init c) (c_docs c).
-Definition spec_ok (c : case) (obs : list qset) : bool := spec_run (c_init c) 0 (c_docs c) obs.
-Definition kf (c : case) : N := kf_run std_fresh 0 (c_init c) (c_docs c).
+Definition obs_eqb (a b : obs_t) : bool := list_eqb (pair_eqb Bool.eqb qseteqb) a b.
+Definition model_obs (c : case) : obs_t := run std_fresh 0 [] (c_init c) (c_docs c).
+Definition spec_ok (c : case) (obs : obs_t) : bool := spec_run [] (c_init c) 0 (c_docs c) obs.
+Definition kf (c : case) : N := kf_run std_fresh 0 [] (c_init c) (c_docs c).
+
+(* the call that raises after the first k statements of the document have been read *)
+Definition cut (k : nat) (d : doc) : doc :=
+  {| d_fmt := d_fmt d; d_target := d_target d; d_stmts := firstn k (d_stmts d);
+     d_obj := d_obj d; d_ctx := d_ctx d; d_keep := d_keep d; d_raised := true |}.
+(* the same document sent to another graph of the dataset *)
+Definition retarget (t : cid) (d : doc) : doc :=
+  {| d_fmt := d_fmt d; d_target := t; d_stmts := d_stmts d;
+     d_obj := d_obj d; d_ctx := d_ctx d; d_keep := d_keep d; d_raised := d_raised d |}.
+
+Definition final (o : obs_t) : qset := snd (last o (false, [])).
 
 (* ---- second entry point: the same document parsed into two empty stores ---- *)
 Definition rename_quad (h : N -> N) (q : quad) : quad :=
@@ -256,29 +345,40 @@ Definition rename_quad (h : N -> N) (q : quad) : quad :=
 (* Prop-level reading of the checker: the property itself *)
 
 (* [now] is the RDF merge of [prev] and the document: its labels are mapped, one node per
-   label for the whole document (all its graphs), injectively, to blank nodes that occur
-   nowhere in [prev]; everything else is kept and nothing else is added *)
-Definition rdf_merge (prev : qset) (tgt : cid) (stmts : list stmt) (now : qset) : Prop :=
+   label for the whole document (all its graphs), injectively; a label the caller fixed
+   ([known]: shared bnode_context / preserve_bnode_ids) denotes the node it was fixed to, every
+   other label a blank node that occurs nowhere in [prev]; everything else is kept and nothing
+   else is added *)
+Definition rdf_merge (known : env) (prev : qset) (tgt : cid) (stmts : list stmt) (now : qset) : Prop :=
   exists f : N -> N,
     (forall l l', In l (labels_of stmts) -> In l' (labels_of stmts) -> f l = f l' -> l = l') /\
     (forall l, In l (labels_of stmts) ->
-       is_bnode (f l) = true /\ forall q, In q prev -> occurs (f l) q = false) /\
+       match env_get known l with
+       | Some n => f l = n
+       | None => is_bnode (f l) = true /\ forall q, In q prev -> occurs (f l) q = false
+       end) /\
     (forall q, In q now <-> In q prev \/ In q (map (sub_stmt f tgt) stmts)).
 
-Fixpoint merges (prev : qset) (ds : list doc) (obs : list qset) : Prop :=
+Fixpoint merges (es : envs) (prev : qset) (j : N) (ds : list doc) (obs : obs_t) : Prop :=
   match ds, obs with
   | [], [] => True
-  | d :: r, now :: obs' =>
-      incl prev now /\ rdf_merge prev (d_target d) (d_stmts d) now /\ merges now r obs'
+  | d :: r, (raised, now) :: obs' =>
+      raised = d_raised d /\ incl prev now /\
+      rdf_merge (known_of es d) prev (d_target d) (d_stmts d) now /\
+      merges (learn es d now j) now (N.succ j) r obs'
   | _, _ => False
   end.
 
-(* the same, carrying the list [used] of all nodes earlier calls made for their labels:
+(* a call that shares nothing with its caller *)
+Definition private (d : doc) : bool :=
+  match env_key d with Some _ => false | None => negb (d_keep d) end.
+
+(* for private calls: carrying the list [used] of all nodes earlier calls made for their labels,
    no call ever re-uses one of them *)
-Fixpoint scoped (used : list N) (prev : qset) (ds : list doc) (obs : list qset) : Prop :=
+Fixpoint scoped (used : list N) (prev : qset) (ds : list doc) (obs : obs_t) : Prop :=
   match ds, obs with
   | [], [] => True
-  | d :: r, now :: obs' =>
+  | d :: r, (_, now) :: obs' =>
       exists f : N -> N,
         (forall l l', In l (labels_of (d_stmts d)) -> In l' (labels_of (d_stmts d)) -> f l = f l' -> l = l') /\
         (forall l, In l (labels_of (d_stmts d)) ->
